@@ -139,6 +139,19 @@ func (c ProgCfg) Program(r *Rand) (any, []string) {
 	return doc, planted
 }
 
+// Program2 plants directives into an existing document.
+func (c ProgCfg) Program2(r *Rand, doc any) (any, []string) {
+	var planted []string
+	for i := 0; i < c.Plants; i++ {
+		var name string
+		doc, name = c.plant(r, doc)
+		if name != "" {
+			planted = append(planted, name)
+		}
+	}
+	return doc, planted
+}
+
 func (c ProgCfg) plant(r *Rand, doc any) (any, string) {
 	type pl struct {
 		on bool
